@@ -12,6 +12,7 @@ import traceback
 from . import seeds
 from .simfs import SimFS, SEAMS, SimCrash, SimBudgetExceeded, HarnessError
 from .hashseam import SCHED
+from .globalseam import GLOBALS
 
 
 class Violation(Exception):
@@ -108,7 +109,10 @@ def execute(machine_cls, seed, knobs, ops, max_ops=None, realfs_root=None):
     SEAMS.install()
     SCHED.install()
     SCHED.reseed(seeds.H(seed, 'hash'))
+    leaked = GLOBALS.reset()
     ctx = Ctx(seed, knobs, realfs_root)
+    if leaked:
+        ctx.stats['process_globals_restored'] += leaked
     SEAMS.fs = ctx.fs
     rec = {'outcome': 'ok', 'check': None, 'msg': None, 'key': None, 'op_index': None}
     m = None
